@@ -248,7 +248,7 @@ pub fn run(opts: &Opts) -> Report {
     let mut rep = Report::new("C15");
     let want = |p: &str| opts.part.as_deref().map_or(true, |x| x == p);
     if want("cell") {
-        let n = if cfg!(miri) { 1 } else { opts.n(160, 3200) };
+        let n = if cfg!(miri) { opts.nshards as u64 } else { opts.n(160, 3200) };
         for case in 0..n {
             if !opts.mine(case) {
                 continue;
@@ -274,7 +274,7 @@ pub fn run(opts: &Opts) -> Report {
         }
     }
     if want("public") {
-        let n = if cfg!(miri) { 1 } else { opts.n(48, 800) };
+        let n = if cfg!(miri) { opts.nshards as u64 } else { opts.n(48, 800) };
         for case in 0..n {
             if opts.mine(case) {
                 public_case(&mut rep, opts, case);
